@@ -13,6 +13,7 @@ UNIT_ALIASES = {"identifier_ic": ("identifier", ["--cfg", 'feature="ignore_case"
 
 MATRIX_FNS = ["matrix", "lemma_cell_sem", "lemma_cmp_rekey", "lemma_cell_missing", "lemma_row_eval", "lemma_row_cells", "lemma_conj_true", "lemma_row_sem", "lemma_rows_eval", "lemma_matrix_defined", "lemma_matrix_sem", "lemma_or_true", "lemma_cell_wf", "lemma_row_wf", "lemma_matrix_wf", "lemma_row_srcs", "lemma_matrix_truth", "lemma_or_arm", "lemma_or_arm_ident", "lemma_or_arm_head", "lemma_or_plain", "lemma_and_arm", "lemma_be_arm", "lemma_negate_arm", "lemma_nested_arm", "lemma_nested_truth", "lemma_nested_exact", "lemma_nested_array_truth", "lemma_nested_array_exact", "lemma_or_free_head", "lemma_match_single", "lemma_match_group", "lemma_post_refl", "lemma_mx_empty", "lemma_mx_push_row", "lemma_mx_push_rest", "lemma_row_from_lookup", "lemma_row_single"]
 
+REWRITE_FNS = ["rewrite_search", "rewrite", "lemma_rw_refl", "lemma_rw_wf"]
 BATCH_FNS = ["batch", "lemma_ac_member", "lemma_ac_any", "lemma_single_kind", "lemma_exact_empty", "lemma_any_ctx_push", "lemma_any_regex_push", "lemma_any_group_push", "lemma_any_ident_take", "lemma_group_ok_push"]
 
 PROPS = {
@@ -23,8 +24,8 @@ PROPS = {
         "assumptions": ["downstream code never sees the feature: checked by the frame scan above"],
     },
     "C03": {
-        "units": {"front": FRONT_PARSE, "solver": ["solve_expression", "lemma_syntax_to_wf", "lemma_match_unfold", "lemma_ids_wf"], "matrix": MATRIX_FNS},
-        "explanation": "every panic site of the extracted solver functions is discharged from wf(); the condition parser is proved to establish wf_syntax (operands of and/or/not are predicates), and lemma_syntax_to_wf bridges the two; matrix() is proved panic-free (char::from_u32(..).expect, the final expect, arithmetic) and to return a well-formed expression - in particular every Matrix cell only asks for column keys below the table width, which is what the solver's Matrix arm needs",
+        "units": {"front": FRONT_PARSE, "solver": ["solve_expression", "lemma_syntax_to_wf", "lemma_match_unfold", "lemma_ids_wf"], "matrix": MATRIX_FNS, "rewrite": REWRITE_FNS},
+        "explanation": "every panic site of the extracted solver functions is discharged from wf(); the condition parser is proved to establish wf_syntax (operands of and/or/not are predicates), and lemma_syntax_to_wf bridges the two; matrix() is proved panic-free (char::from_u32(..).expect, the final expect, arithmetic) and to return a well-formed expression - in particular every Matrix cell only asks for column keys below the table width, which is what the solver's Matrix arm needs; rewrite() / rewrite_search() are proved panic-free (the rebuilt regex may fail to build: the original is kept) and shape-preserving, hence wf-preserving",
         "assumptions": ["identifier-existence scan in the serde visitor (rule.rs:101-125) is not under contract: closed(e, ids) is an assumed link",
                         "identifier bodies built by parse_mapping are assumed well formed (ids_wf)"],
     },
@@ -59,12 +60,13 @@ PROPS = {
         "units": {"optimiser": ["coalesce", "shake_0", "lemma_congruences", "lemma_nested_congruence", "lemma_nested_array_congruence", "lemma_match_coalesce",
                                  "lemma_congruences_all", "lemma_same_refl", "lemma_same_trans", "lemma_group_equiv", "lemma_group_single", "lemma_merge", "lemma_be_congr", "lemma_three",
                                  "lemma_sems_concat", "lemma_sems_defined", "lemma_has_ident_elem", "lemma_and3_concat", "lemma_or3_concat", "lemma_single", "lemma_and3_3", "lemma_or3_3"],
-                  "matrix": MATRIX_FNS},
-        "explanation": "coalesce is proved to preserve sem3 for every document (three-valued equality, so also under negation), to remove every identifier (so clearing the identifier table is sound) and never to hit its expect(); shake_0 (and/or flattening, group-of-one unwrapping) is proved to preserve sem3 for every identifier table and document, arm by arm, through flattening lemmas over and3/or3; matrix() (all 358 lines, both passes, every loop) is proved against a structural relation - every disjunct of an or-group becomes either a row whose cells are exactly its conjuncts, re-keyed to the column of their field, or stays as it is - and that relation is proved to imply that the rewritten or-group is TRUE for exactly the same documents (cell -> row -> rows -> matrix lemmas over the solver's own cache-fold semantics), with full three-valued equivalence wherever no or-group is rewritten; termination of matrix() and coalesce() is proved (decreases expression)",
+                  "matrix": MATRIX_FNS, "rewrite": REWRITE_FNS},
+        "explanation": "coalesce is proved to preserve sem3 for every document (three-valued equality, so also under negation), to remove every identifier (so clearing the identifier table is sound) and never to hit its expect(); shake_0 (and/or flattening, group-of-one unwrapping) is proved to preserve sem3 for every identifier table and document, arm by arm, through flattening lemmas over and3/or3; matrix() (all 358 lines, both passes, every loop) is proved against a structural relation - every disjunct of an or-group becomes either a row whose cells are exactly its conjuncts, re-keyed to the column of their field, or stays as it is - and that relation is proved to imply that the rewritten or-group is TRUE for exactly the same documents (cell -> row -> rows -> matrix lemmas over the solver's own cache-fold semantics), with full three-valued equivalence wherever no or-group is rewritten; termination of matrix() and coalesce() is proved (decreases expression); rewrite() / rewrite_search() are proved panic-free and terminating and to return the same expression with some regex searches rebuilt (same field, cast flag, case flag and kind: rw_rel), which keeps well-formedness (lemma_rw_wf)",
         "assumptions": ["shake_0: termination not proved; Match arm and Nested-over-block arm are holes; double negation removal is known finding C01-KF1",
                         "matrix(): only truth-equivalence holds for a rewritten or-group (False/Missing may swap): the contract claims it where no rewritten or-group sits under a negation (neg_safe) - the rest is known finding C01-KF2; all()/of() heads directly under a nested key are outside the claim",
                         "matrix(): shake_1 (called on the operands of all()/of()) is not under contract: sh_post is assumed; HashMap::into_iter / sort_by / map-collect / values / String == String are expression holes with the std contract stated in prelude/mxspecs.rs; the u32 field counter is assumed not to overflow",
-                        "shake_1 and rewrite passes are not under contract (automaton/regex builders: outside Verus)",
+                        "rewrite_search: that a regex with its leading/trailing '.*' removed accepts the same strings is NOT proved (the regex language is uninterpreted; RegexSetBuilder's inputs are not modelled)",
+                        "shake_1 is not under contract (HashMap iteration over tuple keys, unzip, seven sort_by closures, automaton/regex builders: outside Verus)",
                         "Rule::optimise (the sequencing of the four passes) is not under contract"],
     },
     "C09": {
